@@ -605,7 +605,7 @@ pub fn execute(steps: &[Step], pool_data: &[u8], drop_seed: u64, rs: &mut RunSta
                     };
                     let got = slot.iov.consumer().consume(*k);
                     if got != (*k).min(n) {
-                        return Err(fail(&["C03"], "consume-ret", format!("iovec #{}: consume({}) returned {} with {} stable slices", t, k, got, n)));
+                        return Err(fail(if slot.shadow.pending.is_empty() { &["C03"] } else { &["C03", "C04"] }, "consume-ret", format!("iovec #{}: consume({}) returned {} with {} stable slices", t, k, got, n)));
                     }
                     slot.shadow.handed += bytes;
                     if !slot.shadow.pending.is_empty() && bytes > 0 {
@@ -621,7 +621,7 @@ pub fn execute(steps: &[Step], pool_data: &[u8], drop_seed: u64, rs: &mut RunSta
                     let got = slot.iov.consumer().advance_slices(*n);
                     let want = (*n).min(stable);
                     if got != want {
-                        return Err(fail(&["C03"], "advance-ret", format!("iovec #{}: advance_slices({}) returned {} with {} stable bytes", t, n, got, stable)));
+                        return Err(fail(if slot.shadow.pending.is_empty() { &["C03"] } else { &["C03", "C04"] }, "advance-ret", format!("iovec #{}: advance_slices({}) returned {} with {} stable bytes", t, n, got, stable)));
                     }
                     slot.shadow.handed += want;
                     if want > 0 && want < first_len {
@@ -646,7 +646,7 @@ pub fn execute(steps: &[Step], pool_data: &[u8], drop_seed: u64, rs: &mut RunSta
                     let got = slot.iov.consumer().read(&mut buf).map_err(|e| fail(&["C03"], "read-err", e.to_string()))?;
                     let want = (*n).min(stable);
                     if got != want {
-                        return Err(fail(&["C03"], "read-ret", format!("iovec #{}: read(buf of {}) returned {} with {} stable bytes", t, n, got, stable)));
+                        return Err(fail(if slot.shadow.pending.is_empty() { &["C03"] } else { &["C03", "C04"] }, "read-ret", format!("iovec #{}: read(buf of {}) returned {} with {} stable bytes", t, n, got, stable)));
                     }
                     let sh = &mut slot.shadow;
                     if buf[..got] != sh.bytes[sh.handed..sh.handed + got] {
@@ -660,7 +660,7 @@ pub fn execute(steps: &[Step], pool_data: &[u8], drop_seed: u64, rs: &mut RunSta
                     let mut buf = Vec::new();
                     let got = slot.iov.consumer().read_to_end(&mut buf).map_err(|e| fail(&["C03"], "read-err", e.to_string()))?;
                     if got != stable || buf.len() != stable {
-                        return Err(fail(&["C03"], "read_to_end-ret", format!("iovec #{}: read_to_end returned {} with {} stable bytes", t, got, stable)));
+                        return Err(fail(if slot.shadow.pending.is_empty() { &["C03"] } else { &["C03", "C04"] }, "read_to_end-ret", format!("iovec #{}: read_to_end returned {} with {} stable bytes", t, got, stable)));
                     }
                     let sh = &mut slot.shadow;
                     if buf[..] != sh.bytes[sh.handed..sh.handed + got] {
